@@ -1730,6 +1730,16 @@ class C12(Spec):
                 c = H([call(src, safeMode=mode, reset=True, cb=True)])
                 c['meta'] = {'thm_expect': exp, 'kind': kind}
                 out.append(c)
+        # block options before a block that renders nothing (multi-line macro definition, comment block) end with that block
+        # (seed C12_i: the reset moved into the consuming branch of the injection, which an empty tag never reaches)
+        for src, exp in [("{x} = 'X'\n\n.-macros\n{m} = 'one\ntwo'\n\n*bold* {x}", '<p><em>bold</em> X</p>'),
+                         ("{x} = 'X'\n\n.-spans\n{m} = 'one\ntwo'\n\n*bold* {x}", '<p><em>bold</em> X</p>'),
+                         ("{x} = 'X'\n\n.+skip\n{m} = 'one\ntwo'\n\n*bold* {x}", '<p><em>bold</em> X</p>'),
+                         (".-spans\n/*\nhidden\n*/\n\n*bold*", '<p><em>bold</em></p>'),
+                         (".+skip\n/*\nhidden\n*/\n\n*bold*", '<p><em>bold</em></p>')]:
+            c = H([call(src, safeMode=0, reset=True, cb=True)])
+            c['meta'] = {'thm_expect': exp, 'kind': 'option-leaks-past-empty-block'}
+            out.append(c)
         return out
 
     def oracle(self, ctx, case, impl, variants=()):
